@@ -33,7 +33,8 @@ STEADY = os.path.join(HERE, "driver_steady.janet")
 CYCLES = ("pipe-open-close pipe-roundtrip pipe-drop unix-socket spawn-wait spawn-wait-pipes spawn-kill-wait "
           "spawn-drop execute thread-call thread-async-chan chan-go-give-take chan-cancelled-waiter select-abandon "
           "read-timeout deadline-no-fire deadline-fire go-error-supervisor spawn-finish file-open-close file-drop "
-          "parser-peg sleep lock").split()
+          "parser-peg sleep lock spawn-err-pipe spawn-all-pipes thread-call-cancelled thread-call-deadline "
+          "proc-wait-cancelled read-cancelled write-cancelled sleep-cancelled").split()
 FIELDS = ["fds", "children", "threads", "root-count", "block-count", "tq-count", "listener-count"]
 
 # ------------------------------------------------------------------ termination programs
@@ -47,6 +48,7 @@ SOLO = {
     "D": "(try (ev/with-deadline 0.01 (ev/take (ev/chan))) ([e] nil))",
     "F": "(ev/with-deadline 5 (ev/sleep 0.001))",
     "R": "(do (def [r w] (os/pipe)) (try (ev/read r 1 nil 0.01) ([e] nil)) (ev/close r) (ev/close w))",
+    "E": "(do (def p (os/spawn [\"/bin/sh\" \"-c\" \"echo x >&2\"] :p {:err :pipe :out :pipe})) (ev/read (p :err) :all) (ev/read (p :out) :all) (os/proc-wait p) (os/proc-close p))",
 }
 LINKS = ["none", "chan", "pipe", "tchan", "cancel", "cancel-read"]
 
@@ -169,7 +171,7 @@ def run_steady(chk, scratch):
     singles = [(a, None) for a in CYCLES]
     if chk.quick:
         core = ["pipe-roundtrip", "spawn-wait", "thread-async-chan", "chan-cancelled-waiter", "read-timeout",
-                "deadline-fire", "select-abandon", "unix-socket"]
+                "deadline-fire", "select-abandon", "unix-socket", "thread-call-cancelled", "spawn-all-pipes"]
         pairs = [(a, b) for a in core for b in core if a != b]
     else:
         pairs = [(a, b) for a in CYCLES for b in CYCLES if a != b]
